@@ -37,8 +37,10 @@ func (p *Prog) syncCallee(in ssa.Instruction) *ssa.Function {
 	if calleeName(call) == "(*sync.Once).Do" && len(call.Common().Args) == 2 {
 		switch x := call.Common().Args[1].(type) {
 		case *ssa.MakeClosure:
-			if f, ok := x.Fn.(*ssa.Function); ok && p.allFns[f] {
-				return f
+			if f, ok := x.Fn.(*ssa.Function); ok {
+				if f = p.unbound(f); p.allFns[f] && len(f.Blocks) > 0 {
+					return f
+				}
 			}
 		case *ssa.Function:
 			if p.allFns[x] {
@@ -115,6 +117,9 @@ func (p *Prog) asyncUsed(fn *ssa.Function) bool {
 					}
 					if _, isMC := in.(*ssa.MakeClosure); isMC {
 						continue
+					}
+					if ci, ok := in.(*ssa.Call); ok && calleeName(ci) == "(*sync.Once).Do" {
+						continue // runs synchronously there
 					}
 					p.valueUsed[g] = true
 				}
@@ -286,29 +291,12 @@ func (s *ipSearch) scanF(b *ssa.BasicBlock, from int, stack []*ssa.Call, facts *
 		if _, isRet := in.(*ssa.Return); isRet {
 			if len(stack) > 0 {
 				call := stack[len(stack)-1]
-				// constants returned by the callee become facts about the call's results in the caller
-				nf := facts
-				rt := in.(*ssa.Return)
-				if len(rt.Results) == 1 {
-					if k := constKind(rt.Results[0]); k != 0 {
-						nf = nf.add(call, k)
-					}
-				} else if refs := call.Referrers(); refs != nil {
-					for _, ref := range *refs {
-						if ex, ok := ref.(*ssa.Extract); ok && ex.Index < len(rt.Results) {
-							if k := constKind(rt.Results[ex.Index]); k != 0 {
-								nf = nf.add(ex, k)
-							} else if isFreshErrorValue(rt.Results[ex.Index]) {
-								nf = nf.add(ex, 4)
-							}
-						}
-					}
-				}
+				nf := retFacts(call, in.(*ssa.Return), facts)
 				return s.scanF(call.Block(), instrIndex(call)+1, stack[:len(stack)-1], nf)
 			}
 			if s.up && !s.p.activityRoot(b.Parent()) {
 				for _, cs := range s.p.syncCallers(b.Parent()) {
-					if s.p.roots != nil && s.p.roots[cs.Parent()] && s.p.rootsAreExits {
+					if s.p.loopRoots != nil && s.p.loopRoots[outermost(cs.Parent())] && s.p.rootsAreExits {
 						// returning into an activity root: the activity ends here
 						if s.avoid != nil && s.avoid(in) {
 							continue
@@ -319,12 +307,13 @@ func (s *ipSearch) scanF(b *ssa.BasicBlock, from int, stack []*ssa.Call, facts *
 						}
 						continue
 					}
-					key := fmt.Sprintf("up%p", cs)
+					nf := retFacts(cs, in.(*ssa.Return), nil)
+					key := fmt.Sprintf("up%p|%s", cs, factsKey(nf))
 					if s.seen[key] {
 						continue
 					}
 					s.seen[key] = true
-					if s.scanF(cs.Block(), instrIndex(cs)+1, nil, nil) {
+					if s.scanF(cs.Block(), instrIndex(cs)+1, nil, nf) {
 						return true
 					}
 				}
@@ -373,6 +362,64 @@ func (s *ipSearch) scanF(b *ssa.BasicBlock, from int, stack []*ssa.Call, facts *
 	}
 	for k := range b.Succs {
 		if s.follow(b, k, stack, facts) {
+			return true
+		}
+	}
+	return false
+}
+
+// retFacts: constants returned by the callee become facts about the call's results in the caller.
+func retFacts(call *ssa.Call, rt *ssa.Return, facts *factSet) *factSet {
+	nf := facts
+	if len(rt.Results) == 1 {
+		if k := constKind(rt.Results[0]); k != 0 {
+			nf = nf.add(call, k)
+		} else if isFreshErrorValue(rt.Results[0]) || derefBefore(rt.Results[0], rt) {
+			nf = nf.add(call, 4)
+		}
+	} else if refs := call.Referrers(); refs != nil {
+		for _, ref := range *refs {
+			if ex, ok := ref.(*ssa.Extract); ok && ex.Index < len(rt.Results) {
+				if k := constKind(rt.Results[ex.Index]); k != 0 {
+					nf = nf.add(ex, k)
+				} else if isFreshErrorValue(rt.Results[ex.Index]) || derefBefore(rt.Results[ex.Index], rt) {
+					nf = nf.add(ex, 4)
+				}
+			}
+		}
+	}
+	return nf
+}
+
+// derefBefore: pointer v was dereferenced on every path to `at` (so it is non-nil there).
+func derefBefore(v ssa.Value, at ssa.Instruction) bool {
+	if _, isPtr := v.Type().Underlying().(*types.Pointer); !isPtr || v.Referrers() == nil {
+		return false
+	}
+	for _, ref := range *v.Referrers() {
+		switch x := ref.(type) {
+		case *ssa.FieldAddr:
+			if x.X != v {
+				continue
+			}
+		case *ssa.UnOp:
+			if x.Op != token.MUL || x.X != v {
+				continue
+			}
+		default:
+			continue
+		}
+		// the address computation alone does not fault; require a use of it
+		if fa, ok := ref.(*ssa.FieldAddr); ok {
+			if fa.Referrers() == nil || len(*fa.Referrers()) == 0 {
+				continue
+			}
+		}
+		rb := ref.Block()
+		if rb == at.Block() && instrIndex(ref) < instrIndex(at) {
+			return true
+		}
+		if rb != at.Block() && rb.Dominates(at.Block()) {
 			return true
 		}
 	}
@@ -434,6 +481,12 @@ func mustPrecedeIP(b ssa.Instruction, A ipred, depth int) bool {
 
 // mustPrecedeIPF: mustPrecedeIP restricted to paths allowed by the edge filter.
 func mustPrecedeIPF(b ssa.Instruction, A ipred, edgeOK func(*ssa.BasicBlock, int) bool, depth int) bool {
+	return mustPrecedeIPOpt(b, A, edgeOK, depth, true)
+}
+
+// mustPrecedeIPOpt: followGo says whether what precedes a go statement counts as preceding
+// the goroutine's body (true for events, false for held locks).
+func mustPrecedeIPOpt(b ssa.Instruction, A ipred, edgeOK func(*ssa.BasicBlock, int) bool, depth int, followGo bool) bool {
 	p := theProg
 	fn := b.Parent()
 	s := newIPSearch(func(in ssa.Instruction) bool { return in == b }, A)
@@ -445,7 +498,7 @@ func mustPrecedeIPF(b ssa.Instruction, A ipred, edgeOK func(*ssa.BasicBlock, int
 	if !s.scan(fn.Blocks[0], 0, nil) {
 		return true
 	}
-	if depth < ipMaxDepth && (p.roots == nil || !p.roots[fn]) {
+	if followGo && depth < ipMaxDepth && (p.roots == nil || !p.roots[fn]) {
 		// a goroutine body starts after its go statement: what precedes the spawn precedes the body
 		if gs := p.goSites(fn); len(gs) > 0 && len(p.syncCallers(fn)) == 0 && !p.asyncValueUsed(fn) {
 			for _, g := range gs {
@@ -464,7 +517,7 @@ func mustPrecedeIPF(b ssa.Instruction, A ipred, edgeOK func(*ssa.BasicBlock, int
 		return false
 	}
 	for _, cs := range callers {
-		if !mustPrecedeIPF(cs, A, edgeOK, depth+1) {
+		if !mustPrecedeIPOpt(cs, A, edgeOK, depth+1, followGo) {
 			return false
 		}
 	}
